@@ -9,7 +9,8 @@ CHECK = dict(
           'rollback commit, UTXO rollback commit) of any block being undone; continuation: the daemon stays '
           'on the new branch / has returned to the old branch (or never left it: forced reorg) / moved to a '
           'third branch; restart, bounded catch-up, then every observable is compared with '
-          'RefIndex(daemon chain). non-trivial = a crash fired inside a backup and the final audit '
+          'RefIndex(daemon chain); thorough tier: half of the evaluations enumerate every position of one '
+          'generated reorg in turn. non-trivial = a crash fired inside a backup and the final audit '
           'completed'),
     assumptions=['SimDB/SimFS stand in for LevelDB and the file system (batches atomic, completed '
                  'operations durable: process death, not power loss)',
